@@ -1008,3 +1008,69 @@ func selectIndexOf(v ssa.Value) (*ssa.Select, bool) {
 	}
 	return nil, false
 }
+
+// checkWatchArgsPerSource: every watching source is handed its own WatchArgs value, allocated in that source's
+// iteration of Config's loop and naming that very source: reports are attributed to the slot of the source they
+// came from. A shared value (hoisted out of the loop) attributes every report to the last watcher.
+func (k *core) checkWatchArgsPerSource(rule string) {
+	c := k.c
+	f := k.config
+	n := 0
+	for _, i := range allInstrs(f) {
+		call, ok := i.(*ssa.Call)
+		if !ok || calleeFullName(call) != "("+modPath+".Watcher).Watch" {
+			continue
+		}
+		n++
+		args := call.Call.Args
+		mi, ok := args[len(args)-1].(*ssa.MakeInterface)
+		var al *ssa.Alloc
+		if ok {
+			al, _ = mi.X.(*ssa.Alloc)
+		}
+		okA := al != nil && inLoop(al) && litTypeName(al) == ".watchArgs"
+		okS := false
+		if okA {
+			if sv := litField(al, "s"); sv != nil {
+				// the source stored is the one whose Watch is invoked (possibly through the Watcher assertion)
+				recv := call.Call.Value
+				okS = recvIs(recv, func(x ssa.Value) bool { return x == sv || sameValue(x, sv) }) || recvIs(sv, func(x ssa.Value) bool { return x == recv })
+				if !okS {
+					// both derive from the same range element
+					okS = sharesRangeElem(recv, sv)
+				}
+			}
+		}
+		c.check(okA && okS, rule, relName(f)+"#watch-args", call.Pos(), "the WatchArgs handed to a source's Watch is allocated in that iteration and names that source", "the WatchArgs value handed to Watch is shared between sources (allocated outside the loop) or does not name the source being watched: a report is applied to another source's slot and evicts that layer's value")
+	}
+	if n == 0 {
+		c.bad(rule, relName(f), f.Pos(), "Config never calls Watcher.Watch")
+	}
+}
+
+// sharesRangeElem: a and b both derive, through interface conversions and assertions, from one load of a range element.
+func sharesRangeElem(a, b ssa.Value) bool {
+	root := func(v ssa.Value) ssa.Value {
+		for i := 0; i < 8; i++ {
+			switch x := v.(type) {
+			case *ssa.MakeInterface:
+				v = x.X
+			case *ssa.ChangeInterface:
+				v = x.X
+			case *ssa.TypeAssert:
+				v = x.X
+			case *ssa.Extract:
+				if ta, ok := x.Tuple.(*ssa.TypeAssert); ok {
+					v = ta.X
+				} else {
+					return v
+				}
+			default:
+				return v
+			}
+		}
+		return v
+	}
+	ra, rb := root(a), root(b)
+	return ra == rb || sameValue(ra, rb)
+}
